@@ -347,7 +347,7 @@ where
             seq_of(r)
         }
         Target::SplitLinear => {
-            let mut t: SplitVec<P::Item, Linear> = SplitVec::with_linear_growth(2 + (spare % 4));
+            let mut t: SplitVec<P::Item, Linear> = SplitVec::with_linear_growth(14 + (spare % 3));
             for x in (0..prefix.len()).filter_map(pre) {
                 t.push(x);
             }
